@@ -1,2 +1,138 @@
-/-! placeholder driver (property C04 not built yet) -/
-def main : IO Unit := IO.println "bad-op"
+import LlgoVerif.Util
+import LlgoVerif.Model.Defer
+import LlgoVerif.Spec.DeferSem
+/-! Line-protocol driver for C04.
+
+    `model <o2:0|1> <tlsfix:0|1> <fuel> <prog>`   run the model of llgo's machinery
+    `spec <fuel> <prog>`                          run Go's rule
+    `frame <stmts> <hist>`                        frame layer only: calls made by `Model.unwindView` and by `Spec.unwindView`
+                                                  (`hist` = statement indices, comma separated, oldest first; payload = position)
+
+    prog  := fn ('|' fn)*            fn := capR ';' stmts ';' events
+    stmts := '' | stmt (',' stmt)*   stmt := kind '.' clo '.' nargs '.' fn        kind ∈ a c l
+    events:= '' | ev (',' ev)*       ev := d.k(.arg)* | c.g(.arg)* | m.int | p.arg | f | R | t | s.up.var.arg | a.up.var.arg | w.up.var
+    arg   := l<int> | x | r | p<nat>
+    answer: `<status> <flags> <trace>`; status ∈ ok, U:<v>, ub, stuck; trace lines joined by `|`, tokens by `.`  -/
+open LlgoVerif LlgoVerif.Util LlgoVerif.Defer
+
+def tail1 (s : String) : String := String.ofList (s.toList.drop 1)
+
+def parseInt? (s : String) : Option Int :=
+  if s.startsWith "-" then (tail1 s).toNat?.map (fun n => -(n : Int)) else s.toNat?.map (fun n => (n : Int))
+
+def parseArg (s : String) : Option Arg :=
+  if s = "x" then some .x
+  else if s = "r" then some .r
+  else if s.startsWith "l" then (parseInt? (tail1 s)).map .lit
+  else if s.startsWith "p" then (tail1 s).toNat?.map .p
+  else none
+
+def parseVar (s : String) : Option Var :=
+  if s = "x" then some .x else if s = "r" then some .r else none
+
+def parseBool (s : String) : Option Bool :=
+  if s = "1" then some true else if s = "0" then some false else none
+
+def parseStmt (s : String) : Option Stmt :=
+  match s.splitOn "." with
+  | [k, c, n, f] => do
+    let kind ← (if k = "a" then some Kind.always else if k = "c" then some Kind.cond else if k = "l" then some Kind.loop else none)
+    pure ⟨kind, ← parseBool c, ← n.toNat?, ← f.toNat?⟩
+  | _ => none
+
+def parseEv (s : String) : Option Ev :=
+  match s.splitOn "." with
+  | "d" :: k :: args => do pure (.defer (← k.toNat?) (← args.mapM parseArg))
+  | "c" :: g :: args => do pure (.call (← g.toNat?) (← args.mapM parseArg))
+  | ["m", n] => (parseInt? n).map .mark
+  | ["p", a] => (parseArg a).map .panic
+  | ["f"] => some .fault
+  | ["R"] => some .recover
+  | ["t"] => some .ret
+  | ["s", u, v, a] => do pure (.set (← parseBool u) (← parseVar v) (← parseArg a))
+  | ["a", u, v, a] => do pure (.add (← parseBool u) (← parseVar v) (← parseArg a))
+  | ["w", u, v] => do pure (.show (← parseBool u) (← parseVar v))
+  | _ => none
+
+def parseList {α : Type} (f : String → Option α) (s : String) : Option (List α) :=
+  if s = "" then some [] else (s.splitOn ",").mapM f
+
+def parseFn (s : String) : Option Fn :=
+  match s.splitOn ";" with
+  | [c, ss, evs] => do pure ⟨← parseList parseStmt ss, ← parseList parseEv evs, ← parseBool c⟩
+  | _ => none
+
+def parseProg (s : String) : Option Prog := do
+  let fns ← (s.splitOn "|").mapM parseFn
+  pure ⟨fns⟩
+
+def showInt (n : Int) : String := if n < 0 then "-" ++ toString n.natAbs else toString n.natAbs
+
+def showLine (l : Line) : String :=
+  let t := match l.tag with
+    | .F => "F" | .M => "M" | .R => "R" | .Rnil => "Rnil" | .T => "T" | .V => "V"
+  ".".intercalate (t :: l.vals.map showInt)
+
+def showTrace (out : List Line) : String :=
+  if out.isEmpty then "-" else "|".intercalate (out.reverse.map showLine)
+
+def showFlag : Flag → String
+  | .wrongNode => "wrongNode"
+  | .unexecAlways => "unexecAlways"
+  | .drainOrder => "drainOrder"
+  | .staleFrame => "staleFrame"
+  | .regResult => "regResult"
+  | .recoverIndirect => "recoverIndirect"
+  | .nestedRecover => "nestedRecover"
+
+def showFlags (fs : List Flag) : String :=
+  if fs.isEmpty then "-" else ",".intercalate (fs.reverse.map showFlag)
+
+def layoutsOk (p : Prog) : Bool := p.fns.all (fun f => layoutOk f.stmts)
+
+def showCalls (cs : List (Call Nat)) : String :=
+  if cs.isEmpty then "-" else
+  ",".intercalate (cs.map fun c => match c.node with
+    | none => toString c.stmt
+    | some nd => toString c.stmt ++ ":" ++ toString nd.id ++ ":" ++ toString nd.val)
+
+def numbered : Nat → List Nat → List (Nat × Nat)
+  | _, [] => []
+  | i, k :: t => (k, i) :: numbered (i + 1) t
+
+def handle (line : String) : String :=
+  match fields line with
+  | ["model", o2, fx, fuel, prog] =>
+    match parseBool o2, parseBool fx, fuel.toNat?, parseProg prog with
+    | some o2, some fx, some fuel, some p =>
+      if !layoutsOk p then "compile-error" else
+      let (st, res) := Model.run ⟨o2, fx⟩ p fuel
+      let status := match res with
+        | .ret _ => "ok"
+        | .esc (.exit v) => "U:" ++ showInt v
+        | .esc .stuck => "stuck"
+        | .esc _ => "ub"
+      status ++ " " ++ showFlags st.flags ++ " " ++ showTrace st.out
+    | _, _, _, _ => "bad-op"
+  | ["spec", fuel, prog] =>
+    match fuel.toNat?, parseProg prog with
+    | some fuel, some p =>
+      let (st, res) := Spec.run p fuel
+      let status := match res with
+        | .ret _ _ => "ok"
+        | .panic v _ => "U:" ++ showInt v
+        | .stuck => "stuck"
+      status ++ " " ++ showFlags st.flags ++ " " ++ showTrace st.out
+    | _, _ => "bad-op"
+  | ["frame", ss, hist] =>
+    match parseList parseStmt (if ss = "-" then "" else ss), parseList String.toNat? (if hist = "-" then "" else hist) with
+    | some ss, some hist =>
+      let h := numbered 0 hist
+      let exec : Call Nat → Unit → Out Unit × Unit := fun _ _ => (.ok, ())
+      let m := unwindView ss exec h ()
+      let s := Spec.unwindView ss exec h ()
+      showCalls m.2.1 ++ " " ++ showCalls s.2.1
+    | _, _ => "bad-op"
+  | _ => "bad-op"
+
+def main : IO Unit := lineLoop handle
